@@ -34,7 +34,25 @@ func genC04(t *rapid.T) C04Scn {
 		}
 		p.KillMs = rapid.SampledFrom([]int{150, 400, 900, 1800, 3500, 6000}).Draw(t, "killms")
 		if rapid.IntRange(0, 3).Draw(t, "slowrunner") == 0 {
-			p.RunnerDelayMs = rapid.SampledFrom([]int{800, 2500}).Draw(t, "runnerdelay")
+			p.RunnerDelayMs = rapid.SampledFrom([]int{500, 800, 2500}).Draw(t, "runnerdelay")
+		}
+		// focus phases (one in five): histories that random draws reach too rarely -
+		//  launch: a command is launched, the daemon dies right after and comes back while the (paused) runner has not reported yet,
+		//          the runner then reports while the restarted daemon is listening;
+		//  remote: the daemon dies at one of the points of the remote start of the history's only remote unit
+		switch rapid.IntRange(0, 9).Draw(t, "focus") {
+		case 0:
+			p.Subs = []string{rapid.SampledFrom([]string{"cmd-slow", "cmd-short", "cmd-fail"}).Draw(t, "focus-kind")}
+			p.Crash, p.KillMs, p.RunnerDelayMs = "daemon:submit.after_start:1", 3500, rapid.SampledFrom([]int{400, 500, 600}).Draw(t, "focus-delay")
+		case 1:
+			if i == 0 {
+				p.Subs = []string{rapid.SampledFrom([]string{"remote-cmd", "remote-short"}).Draw(t, "focus-rkind")}
+				if rapid.Bool().Draw(t, "focus-extra") {
+					p.Subs = append(p.Subs, "cmd-short")
+				}
+				p.Crash, p.KillMs, p.RunnerDelayMs = rapid.SampledFrom([]string{"daemon:remote.after_unitid_saved:1", "daemon:remote.after_remote_ack:1", "daemon:submit.after_start:1", "daemon:update.after_write:6", "daemon:update.after_write:7", "daemon:update.after_write:8"}).Draw(t, "focus-rpoint"), 6000, 0
+				ncycles = 1 // no further remote submissions that would blur which unit the point belonged to
+			}
 		}
 		s.Phases = append(s.Phases, p)
 	}
